@@ -86,7 +86,11 @@ func init() {
 			if fr.caller != nil {
 				pos = fr.caller.fn.Name()
 			}
-			fr.i.doAssert(strArg(a[0]), a[1], pos)
+			fr.i.doAssert(strArg(a[0]), a[1], pos, false)
+			return nil
+		},
+		vpkg + "Hunt": func(fr *frame, a []value) value {
+			fr.i.doAssert(strArg(a[0]), a[1], "", true)
 			return nil
 		},
 		vpkg + "Reach": func(fr *frame, a []value) value {
